@@ -29,6 +29,12 @@ def run(tier, seed, t0):
                 jobs.append(Job("%s-l%d-bg%d-%d" % (fl, l, bg, i), "drv_c12", fl, be,
                                 ["--seed", seed, "--l", l, "--Bgbit", bg, "--log2count", lgf, "--shard", i, "--nshards", nsf],
                                 timeout=3600, meta={"layout": (l, bg), "lg": lgf, "shard": i}))
+    # other ring degrees (the decomposition is FFT-free and takes N from the parameters): small, and beyond 2048
+    for N in (8, 16, 64, 512, 2048, 4096, 8192):
+        for (l, bg) in DEFAULTS + ([(4, 8), (1, 16)] if thorough else []):
+            for fl, be in (("optim", "spqlios-fma"), ("debug", "nayuki-portable")):
+                jobs.append(Job("%s-N%d-l%d-bg%d" % (fl, N, l, bg), "drv_c12", fl, be,
+                                ["--seed", seed, "--l", l, "--Bgbit", bg, "--N", N, "--log2count", 24 if thorough else 20], timeout=3600))
     # one layout under ASan as well (scalar tail code, harness buffers)
     jobs.append(Job("asan-l3-bg7", "drv_c12", "asan", "spqlios-fma", ["--seed", seed, "--l", 3, "--Bgbit", 7, "--log2count", 20], timeout=1800))
 
@@ -39,7 +45,7 @@ def run(tier, seed, t0):
             for e in r.by_type("stat"):
                 s = e["stat"]
                 if s.get("kind") == "digest":
-                    k = (s["l"], s["Bgbit"], s["log2count"], s["shard"], s["nshards"])
+                    k = (s["l"], s["Bgbit"], s["log2count"], s["shard"], s["nshards"], s.get("N", 1024))
                     dig.setdefault(k, {})[r.job.flavor] = (s["digest"], r)
         compared = 0
         for k, d in sorted(dig.items()):
@@ -52,6 +58,6 @@ def run(tier, seed, t0):
         return viols, {"cross_build_digests_compared": compared, "exhaustive": bool(thorough)}
 
     return vcheck.simple_run("C12", tier, seed, t0, jobs, "exploration", RULE,
-                             ["N = 1024 polynomials (the only degree the TGSW code is used with); TLWE wrapper for k in {1,2}",
+                             ["N = 1024 polynomials for the exhaustive sweeps; N in {8,...,8192} for stratified sweeps; TLWE wrapper for k in {1,2}",
                               "optim build takes the AVX2 inline-assembly path, debug build the scalar path (no -march)"],
                              min_evaluations=100000, post=post)
